@@ -554,6 +554,46 @@ func c12JudgeMatrix(res *c12Result, name string, exp c12Side, act c12Actual, lin
 	}
 }
 
+// c12NameTokens: the alphabet of "awkward" pieces of a test name. Names are free text chosen by the
+// author of a test suite and travel in an HTTP header value, so anything that is a legal header value
+// can occur: percent signs (alone, as printf verbs, doubled, after digits), blanks, the ": " that
+// separates name and message in a feedback line, quotes, backslashes, braces, non-ASCII text.
+var c12NameTokens = []string{
+	"x", "%", "%d", "%s", "%v", "%%", "100%", "%!", "%[1]d", "%-5d", "%c", "%q", "%x", "%T", "%p", "%*d", "%.2f", "%+v", "%w",
+	" ", ":", ": ", " : ", "\"", "\\", "\\n", "{}", "{0}", "$1", "\u00fc", "\u6d4b\u8bd5", "\U0001F600", "\u00a0", "\t",
+}
+
+var c12NameSingleShapes int
+
+// c12NameShapes: first the single-token shapes (token at the start, in the middle, at the end of an
+// otherwise ordinary hierarchical name), then every ordered pair of tokens in the middle. '#' is
+// replaced by the case number. Shapes that HTTP could not carry unchanged (leading / trailing
+// whitespace is trimmed from header values) are left out.
+func c12NameShapes() []string {
+	var out []string
+	add := func(s string) {
+		plain := strings.ReplaceAll(s, "#", "0")
+		if plain != strings.TrimSpace(plain) {
+			return
+		}
+		out = append(out, s)
+	}
+	for _, t := range c12NameTokens {
+		add(t + "/case-#")
+		add("C12 Suite/" + t + "/case-#")
+		add("C12 Suite/a" + t + "b/case-#")
+		add("C12 Suite/case-#/" + t)
+		add("case-#" + t)
+	}
+	c12NameSingleShapes = len(out)
+	for _, t1 := range c12NameTokens {
+		for _, t2 := range c12NameTokens {
+			add("C12 Suite/" + t1 + t2 + "/case-#")
+		}
+	}
+	return out
+}
+
 func c12Bucket(n int) string {
 	if n > 3 {
 		return "4+"
@@ -1204,7 +1244,7 @@ var c12Suffixes = []string{"", "H", "M", "S", "m", "u", "n", "x"}
 func TestVerifC12(t *testing.T) {
 	r := rep.New("c12-enum")
 	defer r.Write()
-	r.Rule = "matrix: every (expected side of 864) x (actual request a client can produce: 3 HTTP versions x {Connect POST unary, Connect POST stream, Connect GET, gRPC, gRPC-Web, bare gRPC/gRPC-Web content type} x 2 codecs x 6 compressions (+identity spelled out) x TLS/cert) pair, each a distinct request served by a fresh middleware; plus per actual request: same name twice, name histories up to length 4, 2 and 3 requests in flight at the same time (inner handler parked on a channel; every assignment of same/different test names x every release order; per protocol, Connect also GET), HTTP trailers (2 delivery styles x body drained or not), test name absent/empty. timeouts: per protocol every string up to the tier's length over the 13-character alphabet {0,1,9,H,M,S,m,u,n,+,-,space,x}, digit strings of length 7..12 with every unit/no unit/bad unit, computed boundary numbers (digit limits, MaxInt64/unit +-2, zero padded). Every case is distinct by construction and counted as non-trivial; outcomes = observed classes (silent/flagged by number of deviating aspects, accepted/saturated/rejected by reason)"
+	r.Rule = "matrix: every (expected side of 864) x (actual request a client can produce: 3 HTTP versions x {Connect POST unary, Connect POST stream, Connect GET, gRPC, gRPC-Web, bare gRPC/gRPC-Web content type} x 2 codecs x 6 compressions (+identity spelled out) x TLS/cert) pair, each a distinct request served by a fresh middleware; test NAMES as a dimension (name alphabet of %-verbs, %%, 100%, blanks, ':', ': ', quotes, backslash, braces, non-ASCII at the start / middle / end of the name and every ordered token pair, x one request per protocol x expected sides + repeat / history / overlap / trailers / bad timeout: every feedback line must start with exactly `<name>: `); plus per actual request: same name twice, name histories up to length 4, 2 and 3 requests in flight at the same time (inner handler parked on a channel; every assignment of same/different test names x every release order; per protocol, Connect also GET), HTTP trailers (2 delivery styles x body drained or not), test name absent/empty. timeouts: per protocol every string up to the tier's length over the 13-character alphabet {0,1,9,H,M,S,m,u,n,+,-,space,x}, digit strings of length 7..12 with every unit/no unit/bad unit, computed boundary numbers (digit limits, MaxInt64/unit +-2, zero padded). Every case is distinct by construction and counted as non-trivial; outcomes = observed classes (silent/flagged by number of deviating aspects, accepted/saturated/rejected by reason)"
 	if err := c12EnumSanity(); err != nil {
 		t.Fatal(err)
 	}
@@ -1269,9 +1309,63 @@ func TestVerifC12(t *testing.T) {
 		record(c, c12RunCase(c), sampleEvery)
 	}
 
+	// runNamed: like run, but the test name is built from a name shape ('#' = the case number, which
+	// keeps names unique per case).
+	runNamed := func(c c12Case, shape string, sampleEvery int64) {
+		k++
+		if !r.Mine(k) || budgetHit() {
+			return
+		}
+		c.Name = strings.ReplaceAll(shape, "#", strconv.FormatInt(k, 10))
+		r.Count("cases:named:"+c.Kind, 1)
+		record(c, c12RunCase(c), sampleEvery)
+	}
+
 	// ---- part 1: matrix and request-level deviations
 	exps := c12ExpectedSides()
 	acts := c12ActualSides()
+
+	// ---- part 0: the test NAME as a dimension. The name is client-supplied text; the property wants
+	// the feedback to name the test case whatever the name looks like. Every name shape (token of the
+	// name alphabet at the start / in the middle / at the end, every ordered pair of tokens in the
+	// middle) x one request shape per protocol x expected sides, plus the request-level kinds.
+	{
+		shapes := c12NameShapes()
+		r.Extra["name_shapes"] = len(shapes)
+		r.Extra["name_tokens"] = c12NameTokens
+		for si, shape := range shapes {
+			single := si < c12NameSingleShapes
+			for _, p := range []int{c12Connect, c12GRPC, c12GRPCWeb} {
+				act := c12TimeoutActual(p)
+				for ei := range exps {
+					// single-token shapes: all expected sides; token pairs: every 29th (864 = 2^5*27, so
+					// a stride of 29 walks through all aspects) plus the fully matching side
+					if !single && ei%29 != (si+p)%29 && len(c12Disagree(exps[ei], act.c12Side)) != 0 {
+						continue
+					}
+					exp := exps[ei]
+					runNamed(c12Case{Kind: "matrix", Exp: &exp, Act: &act}, shape, 20011)
+				}
+				runNamed(c12Case{Kind: "repeat", Act: &act}, shape, 97)
+				runNamed(c12Case{Kind: "trailers", Act: &act, Variant: "eof/drain"}, shape, 307)
+				for _, v := range []string{"aa", "aba", "abca"} {
+					runNamed(c12Case{Kind: "history", Act: &act, Variant: v}, shape, 53)
+				}
+				if single {
+					for _, v := range []string{"aa/01", "aba/201"} {
+						runNamed(c12Case{Kind: "overlap", Act: &act, Variant: v}, shape, 17)
+					}
+				}
+				for _, to := range []string{"", "x", "-1", "1x"} {
+					to := to
+					runNamed(c12Case{Kind: "timeout", Protocol: p, Timeout: &to}, shape, 1009)
+				}
+			}
+			if stopped {
+				break
+			}
+		}
+	}
 	r.Extra["expected_sides"] = len(exps)
 	r.Extra["actual_requests"] = len(acts)
 	for ai := range acts {
